@@ -269,6 +269,16 @@ def main(argv=None):
                 undecided.append('%s: %s' % (h.name, e))
         if ho == 0 and not o['errors']:
             crashes.append('%s: harness generated zero obligations (vacuity guard)' % h.name)
+        # a program point of the harness that execution reaches only under an unsatisfiable path condition: the assumptions made
+        # before it contradict each other there, and every clause after it passes vacuously - never "held"
+        cov = {}
+        for r in o['results']:
+            if r['name'].startswith('cover:'):
+                cov.setdefault(r['name'], set()).add(r['status'])
+        for cname, sts in sorted(cov.items()):
+            if 'covered' not in sts:
+                undecided.append('%s: %s is reached only under contradictory assumptions (%s): what follows it would hold vacuously'
+                                 % (h.name, cname, '/'.join(sorted(sts))))
         if hcov == 0 and not o['errors'] and not o.get('crash'):
             crashes.append('%s: no reachable cover point (vacuity guard)' % h.name)
         per_harness.append(dict(harness=h.name, backend=h.backend, kind=h.kind, obligations=ho, discharged=hd,
